@@ -84,13 +84,15 @@ func ruleOrderOperands(c *Ctx, r *R) {
 	}
 	// node type -> (first operand field, second operand field, ES5 clause)
 	table := map[string][3]string{
-		"nodeBracketExpression": {"left", "member", "§11.2.1"},
-		"nodeCallExpression":    {"callee", "argumentList", "§11.2.3"},
-		"nodeNewExpression":     {"callee", "argumentList", "§11.2.2"},
-		"nodeBinaryExpression":  {"left", "right", "§11.5-11.11"},
-		"nodeAssignExpression":  {"left", "right", "§11.13.2 (compound assignment)"},
-		"nodeSwitchStatement":   {"discriminant", "body", "§12.11 step 2 (GetValue of the discriminant once, before any clause)"},
+		"nodeBracketExpression":  {"left", "member", "§11.2.1"},
+		"nodeCallExpression":     {"callee", "argumentList", "§11.2.3"},
+		"nodeNewExpression":      {"callee", "argumentList", "§11.2.2"},
+		"nodeBinaryExpression":   {"left", "right", "§11.5-11.11"},
+		"nodeAssignExpression":   {"left", "right", "§11.13.2 (compound assignment)"},
+		"nodeSwitchStatement":    {"discriminant", "body", "§12.11 step 2 (GetValue of the discriminant once, before any clause)"},
+		"nodeVariableExpression": {"name", "initializer", "§12.2 (VariableDeclaration : Identifier Initialiser, steps 1-2)"},
 	}
+	identRef := c.SSAFunc(c.LookupFunc("", "getIdentifierReference"))
 	for _, fn := range c.AllSrcFuncs("") {
 		if fn.Parent() != nil || fn.Signature.Recv() == nil || !typeIs(fn.Signature.Recv().Type(), ottoPath, "runtime") {
 			continue
@@ -111,6 +113,10 @@ func ruleOrderOperands(c *Ctx, r *R) {
 		for _, b := range fn.Blocks {
 			for _, ins := range b.Instrs {
 				call, ok := ins.(*ssa.Call)
+				if ok && spec[0] == "name" && identRef != nil && call.Call.StaticCallee() == identRef {
+					first = append(first, call)
+					continue
+				}
 				if !ok || !entries[call.Call.StaticCallee()] || len(call.Call.Args) < 2 {
 					continue
 				}
@@ -126,6 +132,24 @@ func ruleOrderOperands(c *Ctx, r *R) {
 			continue
 		}
 		key := ssaFuncName(fn)
+		if spec[0] == "name" {
+			// 12.2: `var x = init` resolves the identifier (step 1) before it evaluates the initialiser (step 2)
+			okAll := true
+			for _, s2 := range second {
+				dom := false
+				for _, f1 := range first {
+					if dominatesInstr(f1, s2) {
+						dom = true
+					}
+				}
+				if !dom {
+					okAll = false
+				}
+			}
+			r.check(okAll, key, c.Pos(fn.Pos()), "the identifier is resolved before the initialiser is evaluated",
+				fmt.Sprintf("%s evaluates the initialiser before it has resolved the variable's name (ES5 %s: the reference is taken first): an initialiser that adds or removes a binding in a `with` object or by eval changes which variable is written (`with(o){ var x = (o.x = 1, 2) }`)", ssaFuncName(fn), spec[2]))
+			continue
+		}
 		site := c.Pos(fn.Pos())
 		okAll := true
 		for _, s2 := range second {
